@@ -390,8 +390,12 @@ static void enc_result(thrift_encoder_t* e, carquet_buffer_t* b) {
 }
 
 /* decoder positioned at `level` open structs, innermost last_field_id = last */
-static void dec_setup(thrift_decoder_t* d, const uint8_t* p, size_t n, int level, int last) {
-    thrift_decoder_init(d, p, n);
+static void dec_setup(thrift_decoder_t* d, const uint8_t* p, size_t n, int level, int last, int via_reader) {
+    if (via_reader) {
+        /* the other way to set a decoder up: from an existing buffer reader */
+        carquet_buffer_reader_t rd; carquet_buffer_reader_init_data(&rd, p, n);
+        thrift_decoder_init_reader(d, &rd);
+    } else thrift_decoder_init(d, p, n);
     for (int i = 0; i < level; i++) thrift_read_struct_begin(d);
     if (level > 0 && level <= THRIFT_MAX_NESTING) d->last_field_id[level - 1] = (int16_t)last;
 }
@@ -405,7 +409,11 @@ int main(void) {
         const char* op = h_tok[0];
         /* ------------------------------------------------ encoder primitives */
         if (op[0] == 'w' && strcmp(op, "wfm") && strcmp(op, "wph")) {
-            carquet_buffer_t buf; carquet_buffer_init(&buf);
+            /* the output buffer starts empty, or with a small / medium reserved capacity (growth paths) */
+            static unsigned wcase; wcase++;
+            carquet_buffer_t buf;
+            if (wcase % 3 == 0) carquet_buffer_init(&buf);
+            else if (carquet_buffer_init_capacity(&buf, wcase % 3 == 1 ? 1 : 64) != CARQUET_OK) abort();
             thrift_encoder_t e; thrift_encoder_init(&e, &buf);
             if (!strcmp(op, "wvarint") && h_ntok == 2) thrift_write_varint(&e, strtoull(h_tok[1], NULL, 16));
             else if (!strcmp(op, "wzigzag") && h_ntok == 2) thrift_write_zigzag(&e, shex(h_tok[1]));
@@ -433,6 +441,8 @@ int main(void) {
                 }
             }
             else if (!strcmp(op, "wlist") && h_ntok == 3) thrift_write_list_begin(&e, atoi(h_tok[1]), (int32_t)shex(h_tok[2]));
+            else if (!strcmp(op, "wset") && h_ntok == 3) thrift_write_set_begin(&e, atoi(h_tok[1]), (int32_t)shex(h_tok[2]));
+            else if (!strcmp(op, "wuuid") && h_ntok == 2) { size_t n; void* base; uint8_t* p = h_unhex(h_tok[1], &n, 0, &base); if (n == 16) thrift_write_uuid(&e, p); free(base); }
             else if (!strcmp(op, "wmap") && h_ntok == 4) thrift_write_map_begin(&e, atoi(h_tok[1]), atoi(h_tok[2]), (int32_t)shex(h_tok[3]));
             else if (!strcmp(op, "wnest") && h_ntok == 2) {
                 /* n struct begins, then n struct ends */
@@ -447,7 +457,7 @@ int main(void) {
         /* ------------------------------------------------ decoder primitives:  <op> <level> <last> <hex> [arg] */
         else if (op[0] == 'r' && strncmp(op, "rt", 2) && h_ntok >= 4) {
             size_t n; void* base; uint8_t* p = h_unhex(h_tok[3], &n, 0, &base);
-            thrift_decoder_t d; dec_setup(&d, p, n, atoi(h_tok[1]), (int)shex(h_tok[2]));
+            thrift_decoder_t d; dec_setup(&d, p, n, atoi(h_tok[1]), (int)shex(h_tok[2]), strchr(h_tok[1], 'r') != NULL);
             char out[256]; out[0] = 0;
             if (!strcmp(op, "rvarint")) { uint64_t v = thrift_read_varint(&d); snprintf(out, sizeof out, "%" PRIx64, v); }
             else if (!strcmp(op, "rzigzag")) { int64_t v = thrift_read_zigzag(&d); fmt_shex(out, sizeof out, v); }
@@ -470,6 +480,19 @@ int main(void) {
             }
             else if (!strcmp(op, "rlist")) { thrift_type_t et; int32_t c; thrift_read_list_begin(&d, &et, &c); snprintf(out, sizeof out, "%d %d", (int)et, (int)c); }
             else if (!strcmp(op, "rmap")) { thrift_type_t kt, vt; int32_t c; thrift_read_map_begin(&d, &kt, &vt, &c); snprintf(out, sizeof out, "%d %d %d", (int)kt, (int)vt, (int)c); }
+            else if (!strcmp(op, "rset")) { thrift_type_t et; int32_t c; thrift_read_set_begin(&d, &et, &c); snprintf(out, sizeof out, "%d %d", (int)et, (int)c); }
+            else if (!strcmp(op, "ruuid")) {
+                uint8_t* u = malloc(16); thrift_read_uuid(&d, u);
+                if (d.status == CARQUET_OK) { printf("OK "); h_puthex(u, 16); printf(" %zu\n", d.reader.pos); free(u); free(base); fflush(stdout); continue; }
+                free(u);
+            }
+            else if (!strcmp(op, "rstr")) {
+                char* str = thrift_read_string_alloc(&d);
+                if (d.status == CARQUET_OK && str) { printf("OK "); h_puthex((const uint8_t*)str, strlen(str)); printf(" %zu\n", d.reader.pos); free(str); free(base); fflush(stdout); continue; }
+                free(str);
+                if (d.status == CARQUET_OK) { puts("ERR null-string"); free(base); fflush(stdout); continue; }
+            }
+            else if (!strcmp(op, "rskipf") && h_ntok == 5) { thrift_skip_field(&d, (thrift_type_t)atoi(h_tok[4])); snprintf(out, sizeof out, "%d", d.nesting_level); }
             else if (!strcmp(op, "rskip") && h_ntok == 5) { thrift_skip(&d, (thrift_type_t)atoi(h_tok[4])); snprintf(out, sizeof out, "%d", d.nesting_level); }
             else { puts("ERR unknown-op"); free(base); fflush(stdout); continue; }
             if (d.status != CARQUET_OK) printf("ERR %d\n", (int)d.status);
@@ -528,7 +551,7 @@ int main(void) {
                 parquet_file_metadata_t g; g_last_pos = 0;
                 st = parquet_parse_file_metadata(p, n, &arena, &g, &err);
                 if (st != CARQUET_OK) printf("ERR %d\n", (int)st);
-                else { printf("OK %zu ", g_last_pos); fm_print(&g); putchar('\n'); }
+                else { printf("OK %zu ", g_last_pos); fm_print(&g); putchar('\n'); parquet_file_metadata_free(&g); }
                 carquet_arena_destroy(&arena);
             } else {
                 parquet_page_header_t g; size_t br = 0;
@@ -537,6 +560,27 @@ int main(void) {
                 else { g_lo = p; g_hi = p + n; g_check_range = 1; printf("OK %zu ", br); ph_print(&g); putchar('\n'); }
             }
             free(base);
+        }
+        else if (!strcmp(op, "tname") && h_ntok == 2) printf("OK %s\n", thrift_type_name((thrift_type_t)atoi(h_tok[1])));
+        else if (!strcmp(op, "limits")) {
+            extern int32_t parquet_max_schema_elements(void); extern int32_t parquet_max_row_groups(void);
+            extern int32_t parquet_max_columns_per_row_group(void);
+            printf("OK %d %d %d\n", (int)parquet_max_schema_elements(), (int)parquet_max_row_groups(), (int)parquet_max_columns_per_row_group());
+        }
+        else if (!strcmp(op, "nullargs")) {
+            /* the argument checks of the four entry points */
+            carquet_arena_t arena; carquet_arena_init(&arena);
+            carquet_buffer_t buf; carquet_buffer_init(&buf);
+            parquet_file_metadata_t f; memset(&f, 0, sizeof f); parquet_page_header_t h; memset(&h, 0, sizeof h);
+            uint8_t one[1] = { 0 }; size_t br = 0;
+            memset(&err, 0, sizeof err);
+            int a = parquet_parse_file_metadata(NULL, 0, &arena, &f, &err), b = parquet_parse_file_metadata(one, 1, NULL, &f, &err),
+                c = parquet_parse_file_metadata(one, 1, &arena, NULL, NULL), d2 = parquet_parse_page_header(NULL, 0, &h, &br, &err),
+                e2 = parquet_parse_page_header(one, 1, NULL, &br, NULL), f2 = parquet_parse_page_header(one, 1, &h, NULL, &err),
+                g2 = parquet_write_file_metadata(NULL, &buf, &err), h2 = parquet_write_file_metadata(&f, NULL, NULL),
+                i2 = parquet_write_page_header(NULL, &buf, &err), j2 = parquet_write_page_header(&h, NULL, &err);
+            printf("OK %d %d %d %d %d %d %d %d %d %d %zu\n", a, b, c, d2, e2, f2, g2, h2, i2, j2, carquet_buffer_size(&buf));
+            carquet_buffer_destroy(&buf); carquet_arena_destroy(&arena);
         }
         else puts("ERR unknown-op");
         fflush(stdout);
